@@ -180,11 +180,16 @@ func ruleOptionPropagation(w *World, r *Report) {
 		} else {
 			continue
 		}
-		for _, ins := range b.Succs[0].Instrs {
-			if st, ok := ins.(*ssa.Store); ok {
-				if fa, ok := st.Addr.(*ssa.FieldAddr); ok && fa.X == ssa.Value(baseSet.Params[0]) {
-					_, f := fieldOfAddr(fa)
-					caseField[k] = f.Name()
+		for _, blk := range baseSet.Blocks {
+			if !edgeDominates(b, 0, blk) {
+				continue // the arm of this case: also the blocks of a comma-ok assertion inside it
+			}
+			for _, ins := range blk.Instrs {
+				if st, ok := ins.(*ssa.Store); ok {
+					if fa, ok := st.Addr.(*ssa.FieldAddr); ok && fa.X == ssa.Value(baseSet.Params[0]) {
+						_, f := fieldOfAddr(fa)
+						caseField[k] = f.Name()
+					}
 				}
 			}
 		}
